@@ -31,6 +31,7 @@ struct HRec {
 	uint64_t level = 0;
 	uint64_t agg_time = 0, pub_time = 0; bool has_pub = false; // extending
 	std::vector<Attempt> att;
+	bool abandoned = false;    // outstanding when the application freed the service
 	bool is_conf = false;      // a configuration request (no hash / times, no request id, no cache slot)
 	bool outstanding = false;  // accepted and not yet returned
 	bool held = false;         // returned to the application, not yet freed / re-added
@@ -143,6 +144,11 @@ private:
 	size_t outstanding_slots() const;           // outstanding requests that occupy a cache slot (not configuration requests)
 	size_t conf_extra(const struct ::peek_client &pc) const; // 1 when the configuration slot holds a handle that is not an outstanding request of ours
 	void check_conf_completion(HRec &r, Attempt &a);
+	bool create_service();
+	void op_recreate();
+	uint64_t svc_birth_seq = 0;                 // event sequence number at which the current service object was created
+	bool frame_of_current_service(const Frame &f) const;
+	int generation = 0;                         // number of times the service object has been replaced
 	void send_conf_reply(SimEndpoint &e, SrvReq &rq, int seal_behav, uint64_t subseed);
 	std::vector<HRec *> superseded_conf;        // configuration requests replaced by a later one while outstanding
 	void after_api(const char *what);
